@@ -873,7 +873,7 @@ Definition c4_jmember_step (og : N * N) (s : c4_jst) (m : c4_jmember) : c4_jst :
       else
         let was := c4_jis_stream (c4js_tbl s) og in
         let s1 := mkC4jst (c4js_tbl s) (c4js_err s || suberr) (c4js_refused s) (c4js_exn s)
-                          (c4js_value s) true (c4js_dict s || dict) (c4js_data s || data) (c4js_datafile s || datafile) (negb was) in
+                          (c4js_value s) true (c4js_dict s || dict) (c4js_data s || data) (c4js_datafile s || datafile) (c4js_needs s || negb was) in
         if was then s1
         else c4_jreplace og (mkC4jrepl true true true true) true s1     (* qpdf::Stream(pdf, og, newDictionary(), 0, 0) *)
     | C4jIgnored => s
@@ -924,12 +924,12 @@ Definition c4_import_json (tbl : list (N * N)) (frame_err : bool) (es : list c4_
 (* ------------------------------------------------------------------ (j) Pl_PNGFilter's constructor: the size of the row buffers
    columns, samples_per_pixel, bits_per_sample are uint32_t; bits_per_pixel and bpr are unsigned long long (no wrap for
    32-bit factors); bytes_per_row is uint32_t and the two row buffers are allocated with `bytes_per_row + 1` elements -
-   an addition in uint32_t.  The range check accepts bpr = 2^32 - 1, for which the addition wraps to 0: both buffers have
-   size 0, `incoming` (decode) is 0, and decodeRow reads cur_row[0] and hands bytes_per_row bytes from cur_row + 1 to the
-   next pipeline (finding D-C04-png-row-wrap; `fixed` = true is the constructor after proposed_fixes/C04-png-row-wrap.diff,
-   which demands that bpr + 1 fits).  limit = global::Limits::png_max_memory(), 0 = none (the default outside fuzz mode). *)
+   an addition in uint32_t, which is why the range check is made on bpr + 1 (repair of D-C04-png-row-wrap: the check used
+   to accept bpr = 2^32 - 1, for which the addition wraps to 0 - buffers of size 0, `incoming` 0 - and decodeRow then read
+   cur_row[0] and handed bytes_per_row bytes from cur_row + 1 to the next pipeline).
+   limit = global::Limits::png_max_memory(), 0 = none (the default outside fuzz mode). *)
 Record c4_png := mkC4png { c4png_bpr : Z; c4png_alloc : Z; c4png_incoming : Z }.
-Definition c4_png_ctor (fixed decode : bool) (limit columns spp bps : Z) : option c4_png :=
+Definition c4_png_ctor (decode : bool) (limit columns spp bps : Z) : option c4_png :=
   if (spp <? 1)%Z then None
   else if negb ((bps =? 1) || (bps =? 2) || (bps =? 4) || (bps =? 8) || (bps =? 16))%Z then None
   else
@@ -937,15 +937,17 @@ Definition c4_png_ctor (fixed decode : bool) (limit columns spp bps : Z) : optio
     if negb (bpp + 7 <? 4294967296)%Z then None
     else
       let bpr := ((columns * bpp + 7) / 8)%Z in
-      if ((bpr =? 0) || negb ((if fixed then bpr + 1 else bpr) <? 4294967296))%Z then None
+      if ((bpr =? 0) || negb (bpr + 1 <? 4294967296))%Z then None
       else if ((0 <? limit) && (limit / 2 <? bpr))%Z then None
       else Some (mkC4png bpr ((bpr + 1) mod 4294967296)%Z (if decode then ((bpr + 1) mod 4294967296)%Z else bpr)).
 
 (* does the entry "obj:n g R": { members } leave a NEW stream (the object was no stream before) for which neither "data" nor
    "datafile" was seen, without any error having been reported?  Such a stream has no data provider: every later use
    (QPDFWriter::write, JSON output, getStreamData) throws std::logic_error("pipeStreamData called for stream with no data").
-   containerEnd is meant to exclude it ("new stream must have exactly one of data or datafile"), but the flag it tests,
-   this_stream_needs_data, is assigned again by every "stream" member of the entry (finding C04-F-json-dup-stream). *)
+   containerEnd excludes it ("new stream must have exactly one of data or datafile") through this_stream_needs_data, which
+   is set when a "stream" member creates the stream and reset only when the entry ends (c4js_needs s || negb was).  Before
+   the repair of C04-F-json-dup-stream every "stream" member assigned the flag again (negb was), so a second "stream"
+   member - which finds the object to be a stream already - cleared it. *)
 Definition c4_jentry_dataless (tbl : list (N * N)) (og : N * N) (ms : list c4_jmember) : bool :=
   let s0 := mkC4jst tbl false 0 C4eNone false false false false false false in
   let s1 := fold_left (c4_jmember_step og) ms s0 in
